@@ -132,6 +132,10 @@ def check_subject(acc, subj, budget, rng_mode, b, tier, rseed):
         for kind, detail in judge_indices(idx, ut, len(chunk)):
             acc.violation(subj.name, kind, detail + " [history %s]" % [c for c, _ in h2], wit, {}, rep(h2), size)
         acc.outcome((subj.name, budget, n, tuple(int(i) for i in np.asarray(idx).ravel())))
+        if len(h2) == 2 and len(chunk) > 1 and len(acc.samples) < 2:
+            acc.sample({"config": cfg, "history (chunk, tape answers)": [[c, list(t)] for c, t in h2], "queried_indices_of_last_chunk": [int(i) for i in np.asarray(idx).ravel()],
+                        "utilities_of_last_chunk": [float(u) if u == u else None for u in np.asarray(ut, dtype=float).ravel()],
+                        "alphabet": {k: repr(v) for k, v in (UV if subj.kind == "manager" else SS.CAND_POINTS).items()}})
         # candidates given as a list (array-like) must be accepted as well
         if (tier == "thorough" or subj.name in SS.BASELINES) and len(h2) <= 2:
             o2 = copy.deepcopy(pre)
@@ -182,7 +186,7 @@ def check_subject(acc, subj, budget, rng_mode, b, tier, rseed):
     acc.states += r["states"]
     if r["capped"]:
         acc.cap("cap hit for %s" % cfg)
-    acc.sample({"config": cfg, "states": r["states"], "transitions": r["transitions"]}, limit=1)
+    acc.sample({"config": cfg, "states": r["states"], "transitions": r["transitions"]}, limit=3)
 
 
 def run_shard(spec):
